@@ -204,6 +204,12 @@ theorem scan_of_pack (H : Bytes → Bytes) (mu mg : Nat) (es : List FsEntry) (hn
   · unfold packId
     rw [p1]
     simp only
+    have hne0 : (es.map recOf).isEmpty = false := by
+      cases es with
+      | nil => exact absurd rfl hne
+      | cons a l => rfl
+    rw [hne0]
+    simp only [Bool.false_eq_true, if_false]
     rw [hb H]
   · unfold unpackTar
     rw [if_neg (by decide)]
